@@ -167,6 +167,7 @@ func VerifSend_Accounting() {
 	held := s.Alloc.AllocatedForPeer(p)
 	st := s.Alloc.Stats()
 	verifrt.Eventf("sent=%d sendcalls=%d exited=%d", len(s.Net.Sent), s.Net.SendCalls, len(s.Exited))
+	verifrt.Assert(!s.OverRelease, "C15 more bytes were released for the peer than were accounted to it (a reservation was returned twice)")
 	verifrt.AssertKF(held == 0, "C15 memory still accounted to the peer after its queue went idle", "C15-F1", g.extBytes)
 	verifrt.AssertKF(st.TotalAllocatedAllPeers == 0, "C15 total allocated memory non-zero after every queue went idle", "C15-F1", g.extBytes)
 	verifrt.Assert(st.TotalPendingAllocations == 0 && st.NumPeersWithPendingAllocations == 0, "C15 allocations still pending after every queue went idle")
